@@ -53,7 +53,7 @@ def run(plan, reports, n, seed):
         seen_fns.add(c.qual)
         gen = c.gen
         mod, _, path = c.qual.partition(":")
-        if gen is None and any(not isinstance(k, str) for k in c.params.values()):
+        if gen is None and (any(not isinstance(k, str) for k in c.params.values()) or c.entry is not None or not c.params):
             continue
         if "." in path and gen is None:
             continue  # methods / nested functions need a custom generator
